@@ -2,6 +2,8 @@
    Property theorems only; each is closed by [exact] of a lemma proved elsewhere. *)
 From Coq Require Import List NArith.
 From YV Require Import Base.Wire Model.CodedCpp Proofs.CodedCppIn Proofs.Truncation Model.CodedPy Proofs.CodedPyIn.
+From YV Require Import Model.Binary Model.CppLayout Model.CppTyped Proofs.CppTypedProofs Model.CppReadProg Model.CppTypedRead
+  Model.PyTyped Model.PyReadProg Model.PyTypedRead Proofs.TypedTruncation.
 Import ListNotations.
 
 (* The buffered C++ reader of coded_stream.h returns, for EVERY buffer size, input and script,
@@ -32,6 +34,7 @@ Example C16_hyp_sat :
   aexact [5; 172; 2; 1; 0; 0; 0; 9; 8; 7] [RByte; RVar 32; RFixed 4; RBytes 3]
   = Some [VNum 5; VNum 300; VNum 1; VBytes [9; 8; 7]].
 Proof. vm_compute. reflexivity. Qed.
+Print Assumptions C16_hyp_sat.
 
 (* The buffered Python reader of _binary.py (CodedInputStream), for EVERY buffer size, input and script: the values it
    returns are those of the buffer-less byte-list reader, and where that reader runs out of input it raises
@@ -65,12 +68,28 @@ Example C16_py_hyp_sat :
   paexact [5; 172; 2; 1; 0; 0; 0; 9; 8; 7] [PByte; PVar; PFixed 4; PBytes 3]
   = Some [VNum 5; VNum 300; VNum 1; VBytes [9; 8; 7]].
 Proof. vm_compute. reflexivity. Qed.
+Print Assumptions C16_py_hyp_sat.
 Example C16_py_buffer_error_witness :
   prun 10 (pin_init [1; 2; 3; 4; 5; 6; 7]) [PByte; PByte; PFixed 8] = [PyOk (VNum 1); PyOk (VNum 2); PyFault BufferErr].
 Proof. vm_compute. reflexivity. Qed.
+Print Assumptions C16_py_buffer_error_witness.
+
+(* At the level of the TYPED readers (the reader programs of Model.PyTypedRead / Model.CppTypedRead, tied to the generated code
+   by call traces): cut the encoding of ANY well-typed value of ANY type anywhere, and the reader over its buffered stream,
+   for every buffer size, ends with the end-of-stream exception - it never returns a value and never reads a stale byte. *)
+Theorem C16_py_typed_truncated : forall b t v pre q, (16 <= b)%nat -> has_type t v = true -> enc_py t v = pre ++ q -> q <> [] ->
+  mrun_p b (py_read t) (pin_init pre) = MEnd PyEof \/ mrun_p b (py_read t) (pin_init pre) = MEnd (PyFault BufferErr).
+Proof. exact py_typed_truncated_buffered. Qed.
+Print Assumptions C16_py_typed_truncated.
+
+Theorem C16_cpp_typed_truncated : forall b t v pre q, (0 < b)%nat -> has_type t v = true -> vsmall v = true ->
+  enc t v = pre ++ q -> q <> [] -> mrun_c b (cpp_read t) (cin_init pre) = CMStop Eof.
+Proof. exact cpp_typed_truncated_buffered. Qed.
+Print Assumptions C16_cpp_typed_truncated.
 
 (* the constants of the model (varint byte budgets, magic bytes, format version, nesting limit, default
    buffer size >= 10) are those of the current sources (Gen/Tables.v is regenerated from /repo on every run) *)
 From YV Require Import Proofs.GenTie.
 Theorem C16_constants_are_the_sources : constants_statement.
 Proof. exact constants_agree. Qed.
+Print Assumptions C16_constants_are_the_sources.
